@@ -7,6 +7,7 @@ HERE="$(cd "$(dirname "$0")" && pwd)"
 TIER=quick; [ "${1:-}" = "--tier" ] && TIER="${2:-quick}"
 N=200; [ "$TIER" = thorough ] && N=2000
 export CARGO_NET_OFFLINE=true
+export CARGO_TARGET_DIR="$HERE/target"
 ( cd "$HERE/sim" && cargo build --release --offline -p sim-pool -p sim-alloc -p sim-rng >"$HERE/target/build-selftest.log" 2>&1 ) || { echo "HARNESS-ERROR: build failed"; tail -20 "$HERE/target/build-selftest.log"; exit 2; }
 T=$(mktemp -d /dev/shm/qpz-det-XXXXXX); trap 'rm -rf "$T"' EXIT
 fail=0
